@@ -88,7 +88,6 @@ type Model struct {
 	stepCap  int
 	discard  string // non-empty: the world leaves the predictable fragment (formatting, divergence)
 	faulted  bool   // a script-level fault has been predicted; flow is no longer predicted
-	opaque   bool
 	// set when the last waiting response was for a handler that completes on
 	// its own goroutine without a release (the executor is lenient there)
 	asyncImmediate bool
